@@ -64,6 +64,10 @@ type server struct {
 	apiErrDen   int // 1/apiErrDen calls fail while faults are on
 	faultsOn    bool
 	chanTimeout bool
+	// passengerDen > 0: 1/passengerDen channel differences carry an update of
+	// another channel in their other_updates (while faults are on)
+	passengerDen int
+	onPassenger  func(e *entry)
 
 	// observation for the oracles: what each difference handed to the library
 	onCovered func(seqName string, upTo int, tooLong bool)
@@ -433,6 +437,19 @@ func (s *server) UpdatesGetChannelDifference(ctx context.Context, r *tg.UpdatesG
 	pts := es[len(es)-1].end
 	if s.onCovered != nil {
 		s.onCovered(name, pts, false)
+	}
+	if s.faultsOn && s.passengerDen > 0 && len(s.chanIDs) > 1 && s.tape.Coin(simrt.Fault, 1, s.passengerDen) {
+		// a passenger: an update of another channel rides in this channel's
+		// other_updates; it belongs to that channel's own sequence
+		b := s.chans[s.chanIDs[s.tape.Choose(simrt.Fault, len(s.chanIDs))]]
+		if b.id != c.id && len(b.log) > 0 {
+			e := b.log[len(b.log)-1-s.tape.Choose(simrt.Fault, min(3, len(b.log)))]
+			simrt.FaultFired("foreign-channel-passenger", "%s in the difference of %s", e.id, name)
+			if s.onPassenger != nil {
+				s.onPassenger(e)
+			}
+			other = append(other, s.update(e))
+		}
 	}
 	simrt.Ev("api", "getChannelDifference(%s pts=%d) -> msgs=%d other=%d pts=%d final=%v", name, r.Pts, len(msgs), len(other), pts, final)
 	d := &tg.UpdatesChannelDifference{Final: final, Pts: pts, NewMessages: msgs, OtherUpdates: other, Chats: s.chats(c.id), Users: s.users()}
